@@ -75,9 +75,9 @@ Variable zt : ztable.
 Variable osort : N -> list BoardState -> list BoardState.
 
 Definition sends_of (ev : list event) : list BoardState :=
-  flat_map (fun e => match e with Send b => [b] | Info _ => [] end) ev.
+  flat_map (fun e => match e with Send b => [b] | Info _ _ _ => [] end) ev.
 Definition infos_of (ev : list event) : list str :=
-  flat_map (fun e => match e with Info l => [l] | Send _ => [] end) ev.
+  flat_map (fun e => match e with Info _ _ l => [l] | Send _ => [] end) ev.
 
 (* find_and_play_best_move.  The time slice (Model/TimeControl.v) only fixes when the real clock
    expires; here expiry is the schedule's k, so the slice does not appear. *)
